@@ -344,6 +344,18 @@ Section StoreProofs.
     - rewrite S3, Q2, S2, Q2. apply S1.
   Qed.
 
+  (* the object on disk is toStorage(format, plain data) -- nothing else about the chunk enters *)
+  Lemma store_chunk_object st rs i plain s s' :
+    store_chunk st rs i plain s = (s', None) ->
+    exists b, to_storage zcomp (st_unc st) plain = Some b /\
+              stat (snd (name_from_id st i)) s' = Some (EFile meta0 b) /\
+              (st_unc st = true -> b = plain) /\ (st_unc st = false -> zcomp plain = Some b).
+  Proof.
+    intros E. destruct (store_chunk_stat _ _ _ _ _ _ E) as (b & _ & TS & S). exists b. split; [exact TS|].
+    split; [now rewrite S, path_eqb_refl|]. unfold to_storage in TS.
+    split; intros U; rewrite U in TS; [now inversion TS|exact TS].
+  Qed.
+
   (* paths of the same depth as the stored chunk's path, other than it, probe as before *)
   Lemma store_chunk_probe_frame st rs i plain s s' t :
     store_chunk st rs i plain s = (s', None) ->
